@@ -58,6 +58,8 @@ from spyne.util.cdict import cdict
 
 _date_re = re.compile(DATE_PATTERN)
 _time_re = re.compile(TIME_PATTERN)
+_integer_re = re.compile(r'^\s*[+-]?[0-9]+\s*$')
+_integer_b_re = re.compile(br'^\s*[+-]?[0-9]+\s*$')
 _duration_re = re.compile(
         r'(?P<sign>-?)'
         r'P'
@@ -377,6 +379,16 @@ class InProtocolBase(ProtocolMixin):
             raise ValidationError(string,
                                          "Integer %%r longer than %d characters"
                                                         % cls_attrs.max_str_len)
+
+        # int() is more liberal than the lexical space of xs:integer: it also
+        # accepts digit group separators ('1_0') and non-ascii digits.
+        if isinstance(string, six.text_type) and \
+                                             _integer_re.match(string) is None:
+            raise ValidationError(string, "Could not cast %r to integer")
+
+        if isinstance(string, six.binary_type) and \
+                                           _integer_b_re.match(string) is None:
+            raise ValidationError(string, "Could not cast %r to integer")
 
         try:
             return int(string)
